@@ -60,16 +60,17 @@ example : grownSize 4096 (9 * 1024 * 1024) Gen.params.minAllocSize = 4096 + 16 *
 /-- the same transaction committed under two page sizes (hence different split points and different
 rebalance step lists) leaves the same contents in the bucket -/
 theorem commit_contents_independent_of_pagesize (ps1 ps2 hdr leafHdr branchHdr bmSize : Nat)
-    (steps1 steps2 : List RbStep) (t : Tree Bytes Ent) (h : TreeInv t) :
-    (commitTree Gen.params ps1 hdr leafHdr branchHdr bmSize steps1 t).flatten =
-    (commitTree Gen.params ps2 hdr leafHdr branchHdr bmSize steps2 t).flatten := by
+    (steps1 steps2 : List RbStep) (touched1 touched2 : List Bytes) (t : Tree Bytes Ent) (h : TreeInv t) :
+    (commitTree Gen.params ps1 hdr leafHdr branchHdr bmSize steps1 touched1 t).flatten =
+    (commitTree Gen.params ps2 hdr leafHdr branchHdr bmSize steps2 touched2 t).flatten := by
   obtain ⟨d, hu⟩ := h.uniform
-  rw [commitTree_flatten _ _ _ _ _ _ steps1 t d hu, commitTree_flatten _ _ _ _ _ _ steps2 t d hu]
+  rw [commitTree_flatten _ _ _ _ _ _ steps1 touched1 t d hu,
+    commitTree_flatten _ _ _ _ _ _ steps2 touched2 t d hu]
 
 /-- with the tunables of the current source, commit keeps the tree invariant at every page size -/
 theorem commit_invariant_any_pagesize (pagesize hdr leafHdr branchHdr bmSize : Nat)
-    (steps : List RbStep) (t : Tree Bytes Ent) (h : TreeInv t) :
-    TreeInv (commitTree Gen.params pagesize hdr leafHdr branchHdr bmSize steps t) :=
-  commitTree_inv Gen.params pagesize hdr leafHdr branchHdr bmSize params_valid (by decide) steps t h
+    (steps : List RbStep) (touched : List Bytes) (t : Tree Bytes Ent) (h : TreeInv t) :
+    TreeInv (commitTree Gen.params pagesize hdr leafHdr branchHdr bmSize steps touched t) :=
+  commitTree_inv Gen.params pagesize hdr leafHdr branchHdr bmSize params_valid (by decide) steps touched t h
 
 end Jamm.Props.C16
